@@ -129,7 +129,7 @@ pub fn plan(p: &EpParams) -> Plan {
         episodes: c.exhaustive_count() + random_chunks(p) + api_chunks(p),
         exhaustive: true,
         rule: format!(
-            "inputs: exhaustive family P.x.M.y with P in {{projects/}} + {} single-character edits, M in {} variants of /topics/ and /subscriptions/ (all single edits, double deletions/substitutions/swaps, foreign segments), x in Sigma^0..2 (0..3 for the literal segments), y in Sigma^0..3 (0..4 for the literals), Sigma={{a,1,-,/,e-acute,s}}; plus random longer strings with the fixed segments at shifted offsets; plus Create->echo->Get round trips through the gRPC API, including twin names that share a prefix of 8 to ~4000 bytes and differ in the last byte of the ID or of the project (distinct resources, echoed whole). Both parsers see every string. Non-trivial/distinct: distinct strings accepted by at least one parser (hash set per shard, capped at 20000 keys per shard; the uncapped per-shard count is in monitor_counters.accepted_distinct).",
+            "inputs: exhaustive family P.x.M.y with P in {{projects/}} + {} single-character edits, M in {} variants of /topics/ and /subscriptions/ (all single edits, double deletions/substitutions/swaps, foreign segments), x in Sigma^0..2 (0..3 for the literal segments), y in Sigma^0..3 (0..4 for the literals), Sigma={{a,1,-,/,e-acute,s}}; plus random longer strings with the fixed segments at shifted offsets; plus Create->echo->Get round trips through the gRPC API, including twin names that share a prefix of 8 to ~4000 bytes and differ in the last byte of the ID or of the project (distinct resources, echoed whole). Both parsers see every string; for every accepted string: the grammar's shape, the echo re-parsed (accepted, same value, fixed point, same project and - up to slashes around it - same ID), Display injective. Non-trivial/distinct: distinct strings accepted by at least one parser (hash set per shard, capped at 20000 keys per shard; the uncapped per-shard count is in monitor_counters.accepted_distinct).",
             c.pres.len(),
             c.mids.len()
         ),
@@ -201,6 +201,14 @@ fn check_accepted(
             if echo2 != echo {
                 rep.viol("C18", format!("C18:echo-not-fixed-point:{}", kind), format!("{:?} echoes {:?} which echoes {:?}", s, echo, echo2));
             }
+        }
+    }
+    // R3b: the echo denotes the same resource as `s`, so it must carry the same project and the same
+    // ID (slashes around the ID are the one spelling variation the parsers fold): an echo with
+    // another ID would make two names that differ in the ID denote one resource
+    if let (Some((p1, id1)), Some((p2, id2))) = (grammar_ok(s, segment), grammar_ok(echo, segment)) {
+        if p1 != p2 || id1.trim_matches('/') != id2.trim_matches('/') {
+            rep.viol("C18", format!("C18:echo-has-another-id:{}", kind), format!("{:?} is accepted and echoed as {:?}: names with different IDs ({:?}, {:?}) denote one resource", s, echo, id1, id2));
         }
     }
     // R5: Display identifies the resource (names that differ denote different resources)
